@@ -14,6 +14,12 @@ from abc import ABC, abstractmethod
 import numpy as np
 
 
+def _require_positive(value, name):
+    """Raise a ValueError unless value is a positive number (rejects NaN as well)."""
+    if not value > 0:
+        raise ValueError(f"{name} must be greater than zero.")
+
+
 class Shape(ABC):
     """An abstract representation of a shape in N dimensions."""
 
@@ -320,6 +326,7 @@ class Shape2D(Shape):
 
     @minimal_bounding_circle_radius.setter
     def minimal_bounding_circle_radius(self, value):
+        _require_positive(value, "The radius")
         self._rescale(value / self.minimal_bounding_circle_radius)
 
     @property
@@ -349,6 +356,7 @@ class Shape2D(Shape):
 
     @minimal_centered_bounding_circle_radius.setter
     def minimal_centered_bounding_circle_radius(self, value):
+        _require_positive(value, "The radius")
         self._rescale(value / self.minimal_centered_bounding_circle_radius)
 
     @property
@@ -376,6 +384,7 @@ class Shape2D(Shape):
 
     @maximal_bounded_circle_radius.setter
     def maximal_bounded_circle_radius(self, value):
+        _require_positive(value, "The radius")
         self._rescale(value / self.maximal_bounded_circle_radius)
 
     @property
@@ -400,6 +409,7 @@ class Shape2D(Shape):
 
     @maximal_centered_bounded_circle_radius.setter
     def maximal_centered_bounded_circle_radius(self, value):
+        _require_positive(value, "The radius")
         self._rescale(value / self.maximal_centered_bounded_circle_radius)
 
 
@@ -473,6 +483,7 @@ class Shape3D(Shape):
 
     @minimal_bounding_sphere_radius.setter
     def minimal_bounding_sphere_radius(self, value):
+        _require_positive(value, "The radius")
         self._rescale(value / self.minimal_bounding_sphere_radius)
 
     @property
@@ -506,6 +517,7 @@ class Shape3D(Shape):
 
     @minimal_centered_bounding_sphere_radius.setter
     def minimal_centered_bounding_sphere_radius(self, value):
+        _require_positive(value, "The radius")
         self._rescale(value / self.minimal_centered_bounding_sphere_radius)
 
     @property
@@ -533,6 +545,7 @@ class Shape3D(Shape):
 
     @maximal_bounded_sphere_radius.setter
     def maximal_bounded_sphere_radius(self, value):
+        _require_positive(value, "The radius")
         self._rescale(value / self.maximal_bounded_sphere_radius)
 
     @property
@@ -557,4 +570,5 @@ class Shape3D(Shape):
 
     @maximal_centered_bounded_sphere_radius.setter
     def maximal_centered_bounded_sphere_radius(self, value):
+        _require_positive(value, "The radius")
         self._rescale(value / self.maximal_centered_bounded_sphere_radius)
